@@ -154,6 +154,9 @@ THEOREMS = {
         ],
     },
     "C12": {
+        "JP.Props.C17encode": [
+            "JP.C17.deepCopy_rep",
+        ],
         "JP.Props.C01limit": [
             "JP.C01.apply_bytes_refines_lim", "JP.C01.c12_never_violated_lim",
         ],
@@ -186,6 +189,9 @@ THEOREMS = {
         ],
     },
     "C15": {
+        "JP.Props.C17encode": [
+            "JP.C17.marshal_node", "JP.C17.marshal_node_flags", "JP.C17.marshal_root",
+        ],
         "JP.Props.C17codec": [
             "JP.C17.indent_preserves", "JP.C17.indent_layout", "JP.C17.compact_spec",
         ],
@@ -218,6 +224,16 @@ THEOREMS = {
         ],
     },
     "C17": {
+        "JP.Props.C17encode": [
+            "JP.C17.marshal_node", "JP.C17.marshal_node_flags", "JP.C17.marshal_node_toGo",
+            "JP.C17.marshal_root", "JP.C17.deepCopy_rep", "JP.C17.trustMarshalJSON_member",
+            "JP.C17.marshal_docNil", "JP.C17.marshal_docNil_nested", "JP.C17.marshal_lazy_drops",
+            "JP.C17.marshal_any", "JP.C17.marshal_any_sorted", "JP.C17.marshal_anyOf",
+            "JP.C17.isValidNumber_spec", "JP.C17.marshal_any_err", "JP.C17.marshal_raw",
+            "JP.C17.marshal_raw_nil", "JP.C17.marshal_nodes", "JP.C17.marshal_create_array",
+            "JP.C17.marshal_output_valid_partial", "JP.C17.marshal_node_output_valid", "JP.C17.marshal_root_output_valid",
+            "JP.C17.marshal_any_output_valid",
+        ],
         "JP.Props.C17codec": [
             "JP.C17.compact_spec", "JP.C17.compact_spec_noescape", "JP.C17.compact_preserves", "JP.C17.compact_escape_value",
             "JP.C17.compact_escape_parse", "JP.C17.indent_layout", "JP.C17.indent_preserves", "JP.C17.indent_print_partial",
@@ -274,7 +290,7 @@ OPEN = {
     "C15": ["C15.tests_transparent (passing tests leave the bytes unchanged outside the known-finding trigger class)",
             "C15.no_new_escapes (EscapeHTML off introduces no HTML-class escapes)"],
     "C16": ["C16.entry_points as one collected theorem (its parts are proved in C06bytes, C02bytes, C03impl, C11, C15apply)"],
-    "C17": ["the reflective decoder and encoder are described at value level (decodeDoc/childOf/anyOf, cstOf/marshalAnyE); literal models JP/Codec are in progress",
+    "C17": ["the reflective DECODER is described at value level (decodeDoc/childOf/anyOf); its literal model JP/Codec/Decode is in progress (the encoder is modelled literally in JP/Codec/Encode.lean and proved to print cstOf / marshalAnyE)",
             "struct tags, float formatting, Decoder/Encoder streams: differential testing only"],
     "C19": ["refinement of the legacy CreateMergePatch model to Spec.diff and byte-level closure of the legacy merge functions (in progress)"],
     "C20": ["go-flags, OS, process exit: observed only"],
